@@ -164,6 +164,7 @@ type finding struct {
 	Status    string `json:"status"` // known | fixed
 	Commit    string `json:"commit,omitempty"`
 	What      string `json:"what"`
+	Witness   string `json:"witness,omitempty"` // pinned replay file of a known finding, relative to /verif
 }
 
 type findingsFile struct {
@@ -186,6 +187,15 @@ func loadFindings() map[string]finding {
 		}
 	}
 	return out
+}
+
+func sortedFindingKeys(m map[string]finding) []string {
+	keys := make([]string, 0, len(m))
+	for k := range m {
+		keys = append(keys, k)
+	}
+	sort.Strings(keys)
+	return keys
 }
 
 // ---------------------------------------------------------------------------------------------------------
@@ -562,6 +572,36 @@ func check(prop, tier string) int {
 	known := loadFindings()
 	seenSig := map[string]bool{}
 	var knownLines, violLines []string
+	// pinned witnesses of known findings: replayed on every run; the line is printed while the witness reproduces
+	for _, key := range sortedFindingKeys(known) {
+		f := known[key]
+		if f.Property != prop || f.Witness == "" {
+			continue
+		}
+		wb, err := ioutil.ReadFile(filepath.Join(verifDir, f.Witness))
+		var wrf replayFile
+		if err != nil || json.Unmarshal(wb, &wrf) != nil {
+			fmt.Printf("known finding %q: witness %s unreadable: infrastructure trouble\n", f.Signature, f.Witness)
+			infra = true
+			continue
+		}
+		wc := scenario.NewCtx(0)
+		wc.MaxPerSig = 1000
+		if err := s.Replay(wc, wrf.Case); err != nil {
+			fmt.Printf("known finding %q: witness %s does not replay (%v): infrastructure trouble\n", f.Signature, f.Witness, err)
+			infra = true
+			continue
+		}
+		for _, wv := range wc.Violations {
+			if wv.Signature == f.Signature && !seenSig[wv.Signature] {
+				seenSig[wv.Signature] = true
+				knownLines = append(knownLines, fmt.Sprintf("KNOWN-FINDING: property=%s %s [%s] (witness %s)", prop, f.What, f.Signature, f.Witness))
+			}
+		}
+		if !seenSig[f.Signature] {
+			fmt.Printf("note: the witness of known finding %q no longer reproduces (repaired?)\n", f.Signature)
+		}
+	}
 	nviol := 0
 	os.MkdirAll(filepath.Join(verifDir, "replays"), 0755)
 	for _, v := range viols {
